@@ -3,3 +3,444 @@ From Coq Require Import ZArith List Bool String Ascii Lia.
 From Typhon Require Import Model.C12_compress.
 Import ListNotations.
 Open Scope Z_scope.
+
+(* ------------------------------------------------------------------ association lists *)
+Lemma upd_first_head : forall A n (v x : A) l, upd_first n v ((n, x) :: l) = (n, v) :: l.
+Proof. intros. cbn [upd_first]. rewrite Z.eqb_refl. reflexivity. Qed.
+
+Lemma del_first_head : forall A n (x : A) l, del_first n ((n, x) :: l) = l.
+Proof. intros. cbn [del_first]. rewrite Z.eqb_refl. reflexivity. Qed.
+
+Lemma look_first_head : forall A n (x : A) l, look_first n ((n, x) :: l) = Some x.
+Proof. intros. cbn [look_first]. rewrite Z.eqb_refl. reflexivity. Qed.
+
+Lemma str_eqb_refl : forall a, str_eqb a a = true.
+Proof. induction a as [|x a IH]; cbn; [reflexivity|]. rewrite Ascii.eqb_refl, IH. reflexivity. Qed.
+
+Lemma str_eqb_eq : forall a b, str_eqb a b = true <-> a = b.
+Proof.
+  induction a as [|x a IH]; destruct b as [|y b]; cbn; split; intro H; try reflexivity; try discriminate.
+  - apply andb_true_iff in H. destruct H as [H1 H2]. apply Ascii.eqb_eq in H1. apply IH in H2. subst. reflexivity.
+  - inversion H; subst. rewrite Ascii.eqb_refl. cbn. apply IH. reflexivity.
+Qed.
+
+Lemma str_eqb_neq : forall a b, a <> b -> str_eqb a b = false.
+Proof. intros a b H. destruct (str_eqb a b) eqn:E; [apply str_eqb_eq in E; contradiction|reflexivity]. Qed.
+
+Lemma flook_fwrite_same : forall n b fs, flook n (fwrite n b fs) = Some b.
+Proof. intros. unfold fwrite. cbn [flook]. rewrite str_eqb_refl. reflexivity. Qed.
+
+Lemma flook_fwrite_other : forall n k b fs, k <> n -> flook n (fwrite k b fs) = flook n fs.
+Proof. intros. unfold fwrite. cbn [flook]. rewrite str_eqb_neq by assumption. reflexivity. Qed.
+
+Lemma flook_funlink_same : forall n fs, flook n (funlink n fs) = None.
+Proof.
+  intros n fs. induction fs as [|[k v] fs IH]; cbn; [reflexivity|].
+  destruct (str_eqb k n) eqn:E; cbn; [exact IH|]. rewrite E. exact IH.
+Qed.
+
+Lemma flook_funlink_other : forall n t fs, t <> n -> flook n (funlink t fs) = flook n fs.
+Proof.
+  intros n t fs Hne. induction fs as [|[k v] fs IH]; cbn; [reflexivity|].
+  destruct (str_eqb k t) eqn:E; cbn.
+  - apply str_eqb_eq in E. subst k. rewrite str_eqb_neq by assumption. exact IH.
+  - destruct (str_eqb k n); [reflexivity|exact IH].
+Qed.
+
+(* ------------------------------------------------------------------ the operations *)
+Section Ops.
+  Variable known : str -> bool.
+  Variable enc : str -> str -> bytes -> bytes.
+  Variable encp : str -> bytes.
+  Variable dec : str -> str -> bytes -> dres.
+
+  Notation run_compress := (run_compress known enc encp).
+  Notation run_decompress := (run_decompress known dec).
+  Notation compress_as := (compress_as known enc encp).
+
+  (* the temporary directory of a compress block: created, written, removed *)
+  Lemma tmpdir_cycle : forall st w fs,
+    let n := next st in
+    let st1 := snd (mkdtemp st) in
+    let st2 := match w with Some x => td_write n x st1 | None => st1 end in
+    tdirs (rmtree n (set_files st2 fs)) = tdirs st /\ tfiles (rmtree n (set_files st2 fs)) = tfiles st
+    /\ files (rmtree n (set_files st2 fs)) = fs /\ files st2 = files st
+    /\ td_read n st2 = w /\ tdirs (rmtree n st2) = tdirs st /\ tfiles (rmtree n st2) = tfiles st
+    /\ files (rmtree n st2) = files st.
+  Proof.
+    intros st w fs. unfold td_read, td_write, rmtree, set_files, mkdtemp.
+    destruct w as [x|]; cbn -[Z.eqb];
+      rewrite ?Z.eqb_refl; cbn -[Z.eqb]; rewrite ?Z.eqb_refl; repeat split; reflexivity.
+  Qed.
+
+  (* ---- no temporary file or directory remains, whatever step raises ---- *)
+  Lemma compress_no_debris : forall st name fmtarg b flt,
+    let r := run_compress st name fmtarg b flt in
+    tdirs (c_st r) = tdirs st /\ tfiles (c_st r) = tfiles st.
+  Proof.
+    intros st name fmtarg b flt. unfold C12_compress.run_compress.
+    destruct (negb (known (eff_fmt name fmtarg))).
+    - destruct (body_write b flt) as [[x|] o]; cbn; split; reflexivity.
+    - assert (G : forall w o,
+        let st2 := match w with Some x => td_write (next st) x (snd (mkdtemp st)) | None => snd (mkdtemp st) end in
+        let r := match o with
+                 | Raised => mkC (rmtree (next st) st2) Raised YTemp (ntemps st2)
+                 | Done => let '(fs', o') := compress_as (td_read (next st) st2) (eff_fmt name fmtarg) name flt (files st2) in
+                           mkC (rmtree (next st) (set_files st2 fs')) o' YTemp (ntemps st2)
+                 end in
+        tdirs (c_st r) = tdirs st /\ tfiles (c_st r) = tfiles st).
+      { intros w o. cbv zeta. destruct o.
+        - destruct (compress_as _ _ _ _ _) as [fs' o']. cbn [c_st].
+          pose proof (tmpdir_cycle st w fs') as T. cbv zeta in T.
+          destruct T as (A & B & _). split; assumption.
+        - cbn [c_st]. pose proof (tmpdir_cycle st w []) as T. cbv zeta in T.
+          destruct T as (_ & _ & _ & _ & _ & A & B & _). split; assumption. }
+      destruct flt; try (cbn [c_st]; split; reflexivity);
+        unfold mkdtemp at 1; cbv beta iota zeta;
+        destruct (body_write b _) as [w o]; apply (G w o).
+  Qed.
+
+  (* ---- an exception in the caller's block (or before it) leaves every user-visible file alone ---- *)
+  Lemma compress_body_fault : forall st name fmtarg b j,
+    known (eff_fmt name fmtarg) = true ->
+    let r := run_compress st name fmtarg b (CBody j) in
+    files (c_st r) = files st /\ c_out r = Raised.
+  Proof.
+    intros st name fmtarg b j K. unfold C12_compress.run_compress. rewrite K. cbn [negb].
+    unfold mkdtemp at 1. cbv beta iota zeta.
+    destruct j as [j|]; cbn [body_write c_st c_out].
+    - pose proof (tmpdir_cycle st (Some (firstn j b)) []) as T. cbv zeta in T. split; [apply T|reflexivity].
+    - pose proof (tmpdir_cycle st None []) as T. cbv zeta in T. split; [apply T|reflexivity].
+  Qed.
+
+  Lemma compress_mkdtemp_fault : forall st name fmtarg b,
+    known (eff_fmt name fmtarg) = true ->
+    let r := run_compress st name fmtarg b CMkdtemp in
+    c_st r = st /\ c_out r = Raised /\ c_yield r = YNone.
+  Proof.
+    intros st name fmtarg b K. unfold C12_compress.run_compress. rewrite K. cbn. repeat split.
+  Qed.
+
+  (* ---- whatever happens, only the target itself can change among the user-visible files ---- *)
+  Lemma compress_as_other : forall src fmt target flt fs p,
+    p <> target -> flook p (fst (compress_as src fmt target flt fs)) = flook p fs.
+  Proof.
+    intros src fmt target flt fs p Hne. unfold C12_compress.compress_as.
+    destruct (negb (known fmt)); [reflexivity|].
+    destruct (writer_of fmt); destruct src; destruct flt; cbn [fst];
+      try reflexivity; apply flook_fwrite_other; congruence.
+  Qed.
+
+  Lemma compress_as_ok : forall b fmt target fs,
+    known fmt = true -> writer_of fmt <> WNone ->
+    compress_as (Some b) fmt target CNone fs = (fwrite target (enc fmt (member_c target fmt) b) fs, Done).
+  Proof.
+    intros b fmt target fs K W. unfold C12_compress.compress_as. rewrite K. cbn [negb].
+    destruct (writer_of fmt); try reflexivity. contradiction.
+  Qed.
+
+  Lemma run_compress_known_eq : forall st name fmtarg b flt,
+    known (eff_fmt name fmtarg) = true -> flt <> CMkdtemp ->
+    run_compress st name fmtarg b flt =
+    (let '(w, o) := body_write b flt in
+     let st2 := match w with
+                | Some x => td_write (next st) x (snd (mkdtemp st))
+                | None => snd (mkdtemp st)
+                end in
+     match o with
+     | Raised => mkC (rmtree (next st) st2) Raised YTemp (ntemps st2)
+     | Done =>
+         let '(fs', o') := compress_as (td_read (next st) st2) (eff_fmt name fmtarg) name flt (files st2) in
+         mkC (rmtree (next st) (set_files st2 fs')) o' YTemp (ntemps st2)
+     end).
+  Proof.
+    intros st name fmtarg b flt K NM. unfold C12_compress.run_compress. rewrite K. cbn [negb].
+    destruct flt; try contradiction; reflexivity.
+  Qed.
+
+  (* ---- an undisturbed block stores a complete archive of the payload under the name ---- *)
+  Lemma compress_stores : forall st name fmtarg b,
+    let fmt := eff_fmt name fmtarg in
+    known fmt = true -> writer_of fmt <> WNone ->
+    let r := run_compress st name fmtarg b CNone in
+    c_out r = Done /\ c_yield r = YTemp
+    /\ files (c_st r) = fwrite name (enc fmt (member_c name fmt) b) (files st).
+  Proof.
+    intros st name fmtarg b fmt K W. rewrite run_compress_known_eq by (assumption || discriminate).
+    fold fmt. cbn [body_write].
+    pose proof (tmpdir_cycle st (Some b)) as T. cbv zeta in T.
+    destruct (T []) as (_ & _ & _ & F2 & R & _). rewrite R, F2.
+    rewrite compress_as_ok by assumption. cbn [c_out c_yield c_st].
+    split; [reflexivity|]. split; [reflexivity|].
+    apply (T (fwrite name (enc fmt (member_c name fmt) b) (files st))).
+  Qed.
+
+  (* ---- names that are not compression formats are passed through ---- *)
+  Lemma compress_passthrough : forall st name fmtarg b flt,
+    known (eff_fmt name fmtarg) = false ->
+    let r := run_compress st name fmtarg b flt in
+    c_yield r = YName /\ c_during r = ntemps st
+    /\ (flt = CNone -> c_out r = Done /\ files (c_st r) = fwrite name b (files st)).
+  Proof.
+    intros st name fmtarg b flt K. unfold C12_compress.run_compress. rewrite K. cbn [negb].
+    destruct (body_write b flt) as [w o] eqn:E. cbn. split; [reflexivity|]. split; [reflexivity|].
+    intros ->. cbn in E. inversion E. subst. cbn. split; reflexivity.
+  Qed.
+
+  Lemma decompress_passthrough : forall st name target flt,
+    known (fmt_of_name name) = false ->
+    let r := run_decompress st name target flt in
+    d_yield r = YName /\ d_st r = st /\ (flt = DNone -> d_read r = flook name (files st)).
+  Proof.
+    intros st name target flt K. unfold C12_compress.run_decompress. rewrite K. cbn [negb].
+    destruct flt as [| | | | |[|]]; cbn; repeat split; intros; try reflexivity; discriminate.
+  Qed.
+
+  (* ---- decompress: no temporary file remains, the copy is gone, nothing else changes ---- *)
+  Ltac break_match :=
+    repeat match goal with
+           | |- context [match flook ?a ?b with _ => _ end] => destruct (flook a b) eqn:?
+           | |- context [match dec ?a ?b ?c with _ => _ end] => destruct (dec a b c) eqn:?
+           end.
+
+  Lemma decompress_no_debris : forall st name target flt,
+    let r := run_decompress st name target flt in
+    tdirs (d_st r) = tdirs st /\ tfiles (d_st r) = tfiles st.
+  Proof.
+    intros st name target flt. unfold C12_compress.run_decompress, mktemp, tf_write, tf_unlink, set_files.
+    destruct (negb (known (fmt_of_name name))).
+    - destruct flt as [| | | | |[|]]; cbn; split; reflexivity.
+    - destruct target as [t|]; destruct flt as [| | |j| |[|]];
+        cbn -[Z.eqb flook funlink fwrite upd_first del_first];
+        try (split; reflexivity);
+        break_match; cbn -[Z.eqb flook funlink fwrite upd_first del_first];
+        rewrite ?upd_first_head, ?del_first_head; split; reflexivity.
+  Qed.
+
+  Lemma decompress_copy_gone : forall st name t flt,
+    known (fmt_of_name name) = true -> flt <> DMktemp ->
+    let r := run_decompress st name (Some t) flt in
+    flook t (files (d_st r)) = None.
+  Proof.
+    intros st name t flt K NM. unfold C12_compress.run_decompress, set_files. rewrite K. cbn [negb].
+    destruct flt as [| | |j| |[|]]; try contradiction; cbn -[flook funlink fwrite];
+      break_match; cbn -[flook funlink fwrite]; apply flook_funlink_same.
+  Qed.
+
+  Lemma decompress_others_untouched : forall st name target flt p,
+    target <> Some p ->
+    let r := run_decompress st name target flt in
+    flook p (files (d_st r)) = flook p (files st).
+  Proof.
+    intros st name target flt p NT. unfold C12_compress.run_decompress, mktemp, tf_write, tf_unlink, set_files.
+    destruct (negb (known (fmt_of_name name))).
+    - destruct flt as [| | | | |[|]]; cbn; reflexivity.
+    - assert (W : forall t x fs, Some t <> Some p -> flook p (funlink t (fwrite t x fs)) = flook p (funlink t fs)).
+      { intros t x fs H. rewrite !flook_funlink_other by congruence. apply flook_fwrite_other. congruence. }
+      destruct target as [t|]; destruct flt as [| | |j| |[|]]; cbn -[Z.eqb flook funlink fwrite];
+        try reflexivity;
+        break_match; cbn -[Z.eqb flook funlink fwrite]; try reflexivity;
+        rewrite ?W by assumption; rewrite ?flook_funlink_other by congruence;
+        rewrite ?flook_fwrite_other by congruence; reflexivity.
+  Qed.
+
+  (* ---- reading back ---- *)
+  Lemma decompress_reads : forall st name target x b,
+    known (fmt_of_name name) = true ->
+    target <> Some name ->
+    flook name (files st) = Some x ->
+    dec (fmt_of_name name) (member_d name) x = DOk b ->
+    let r := run_decompress st name target DNone in
+    d_out r = Done /\ d_read r = Some b /\ d_yield r = (match target with None => YTemp | Some _ => YTarget end).
+  Proof.
+    intros st name target x b K NT L D. unfold C12_compress.run_decompress, mktemp, set_files. rewrite K. cbn [negb].
+    destruct target as [t|]; cbn -[flook funlink fwrite].
+    - rewrite flook_fwrite_other by congruence. rewrite L, D. cbn. repeat split.
+    - rewrite L, D. cbn. repeat split.
+  Qed.
+End Ops.
+
+(* ------------------------------------------------------------------ names *)
+Lemma rsplit_some : forall c l a b, rsplit c l = Some (a, b) -> l = a ++ c :: b /\ ~ In c b.
+Proof.
+  intros c. induction l as [|x t IH]; intros a b H; cbn in H; [discriminate|].
+  destruct (rsplit c t) as [[a' b']|] eqn:E.
+  - inversion H; subst. destruct (IH a' b eq_refl) as [-> N]. split; [reflexivity|exact N].
+  - destruct (Ascii.eqb x c) eqn:X; [|discriminate]. inversion H; subst. apply Ascii.eqb_eq in X. subst x.
+    split; [reflexivity|]. clear -E. revert E. induction b as [|y b IH]; cbn; intros E; [tauto|].
+    destruct (rsplit c b) as [[? ?]|]; [discriminate|]. destruct (Ascii.eqb y c) eqn:Y; [discriminate|].
+    intros [->|I]; [rewrite Ascii.eqb_refl in Y; discriminate|]. apply IH; [reflexivity|exact I].
+Qed.
+
+Lemma rsplit_none : forall c l, ~ In c l -> rsplit c l = None.
+Proof.
+  intros c. induction l as [|x t IH]; intros N; cbn; [reflexivity|].
+  rewrite IH by (intro I; apply N; right; exact I).
+  destruct (Ascii.eqb x c) eqn:X; [|reflexivity]. apply Ascii.eqb_eq in X. subst. exfalso. apply N. left. reflexivity.
+Qed.
+
+Lemma rsplit_app : forall c a b, ~ In c b -> rsplit c (a ++ c :: b) = Some (a, b).
+Proof.
+  intros c a b N. induction a as [|x a IH]; cbn.
+  - rewrite rsplit_none by exact N. rewrite Ascii.eqb_refl. reflexivity.
+  - rewrite IH. reflexivity.
+Qed.
+
+Lemma basename_nosep : forall p, ~ In sep (basename p).
+Proof.
+  intros p. unfold basename. destruct (rsplit sep p) as [[a b]|] eqn:E.
+  - apply rsplit_some in E. tauto.
+  - intro I. revert E. clear -I. induction p as [|x t IH]; cbn; [destruct I|].
+    destruct (rsplit sep t) as [[? ?]|] eqn:E; [discriminate|].
+    destruct (Ascii.eqb x sep) eqn:X; [discriminate|]. intros _.
+    destruct I as [->|I]; [rewrite Ascii.eqb_refl in X; discriminate|]. apply (IH I). reflexivity.
+Qed.
+
+Lemma basename_id : forall q, ~ In sep q -> basename q = q /\ dirpart q = [].
+Proof. intros q N. unfold basename, dirpart. rewrite rsplit_none by exact N. split; reflexivity. Qed.
+
+Lemma basename_dirpart_app : forall p b, ~ In sep b -> basename (dirpart p ++ b) = b.
+Proof.
+  intros p b N. unfold dirpart. destruct (rsplit sep p) as [[a ?]|].
+  - rewrite <- app_assoc. cbn [app]. unfold basename. rewrite rsplit_app by exact N. reflexivity.
+  - cbn [app]. apply basename_id. exact N.
+Qed.
+
+Lemma lstrip_nodot : forall s, ~ In dot s -> lstrip_dots s = s.
+Proof.
+  intros [|c t] N; cbn; [reflexivity|]. destruct (Ascii.eqb c dot) eqn:X; [|reflexivity].
+  apply Ascii.eqb_eq in X. subst. exfalso. apply N. left. reflexivity.
+Qed.
+
+Lemma endswith_dot_suffix : forall suf, endswith (dot :: suf) suf = true.
+Proof.
+  intros suf. unfold endswith. cbn [List.length].
+  replace (S (List.length suf) - List.length suf)%nat with 1%nat by lia. cbn [skipn].
+  rewrite str_eqb_refl. rewrite andb_true_r. apply Nat.leb_le. lia.
+Qed.
+
+Lemma splitext_last_shape : forall q b e, splitext_last q = (b, e) ->
+  (e = [] /\ b = q) \/ (exists suf, e = dot :: suf /\ ~ In dot suf /\ q = b ++ dot :: suf).
+Proof.
+  intros q b e H. unfold splitext_last in H. destruct (rsplit dot q) as [[pre suf]|] eqn:E.
+  - destruct (all_dots pre); inversion H; subst; [left; split; reflexivity|].
+    right. exists suf. apply rsplit_some in E. destruct E as [-> N]. repeat split; assumption.
+  - inversion H; subst. left. split; reflexivity.
+Qed.
+
+(* the member name compress_as stores in a zip archive is the one decompress looks for *)
+Lemma member_agree : forall p, fmt_of_name p <> [] -> member_c p (fmt_of_name p) = member_d p.
+Proof.
+  intros p NE. unfold member_c, member_d, fmt_of_name in *.
+  pose proof (basename_nosep p) as NS. set (q := basename p) in *.
+  unfold splitext at 1. destruct (basename_id q NS) as [Bq Dq]. rewrite Bq, Dq. cbn [app].
+  unfold splitext in *. fold q in NE |- *.
+  destruct (splitext_last q) as [b e] eqn:S. cbn [fst snd] in *.
+  destruct (splitext_last_shape q b e S) as [[-> ->]|[suf (-> & ND & Q)]].
+  - cbn in NE. contradiction.
+  - assert (NB : ~ In sep b). { intro I. apply NS. rewrite Q. apply in_or_app. left. exact I. }
+    rewrite basename_dirpart_app by exact NB.
+    cbn [lstrip_dots]. rewrite Ascii.eqb_refl. rewrite lstrip_nodot by exact ND.
+    rewrite endswith_dot_suffix. reflexivity.
+Qed.
+
+Lemma writer_nonempty : forall f, writer_of f <> WNone -> f <> [].
+Proof. intros f W ->. apply W. reflexivity. Qed.
+
+(* ------------------------------------------------------------------ round trip *)
+Section RoundTrip.
+  Variable known : str -> bool.
+  Variable enc : str -> str -> bytes -> bytes.
+  Variable encp : str -> bytes.
+  Variable dec : str -> str -> bytes -> dres.
+  Hypothesis codec_ok : forall f m b, dec f m (enc f m b) = DOk b.
+
+  Lemma compress_others_untouched : forall st name fmtarg b flt p,
+    p <> name ->
+    flook p (files (c_st (run_compress known enc encp st name fmtarg b flt))) = flook p (files st).
+  Proof.
+    intros st name fmtarg b flt p Hne.
+    destruct (known (eff_fmt name fmtarg)) eqn:K.
+    - assert (C : flt = CMkdtemp \/ flt <> CMkdtemp) by (destruct flt; (left; reflexivity) || (right; discriminate)).
+      destruct C as [->|NM].
+      + destruct (compress_mkdtemp_fault known enc encp st name fmtarg b K) as (-> & _). reflexivity.
+      + rewrite (run_compress_known_eq known enc encp) by assumption.
+        destruct (body_write b flt) as [w o]. cbv beta iota zeta. destruct o.
+        * match goal with |- context [compress_as ?a ?b ?c ?d ?e ?f ?g ?h] =>
+            destruct (compress_as a b c d e f g h) as [fs' o'] eqn:E end. cbn [c_st].
+          pose proof (tmpdir_cycle st w fs') as T. cbv zeta in T.
+          destruct T as (_ & _ & F1 & F2 & _). rewrite F1.
+          pose proof (compress_as_other known enc encp) as O.
+          match type of E with compress_as _ _ _ ?s ?f ?t ?fl ?fs = _ =>
+            specialize (O s f t fl fs p Hne); rewrite E in O; cbn [fst] in O; rewrite O end.
+          rewrite F2. reflexivity.
+        * cbn [c_st]. pose proof (tmpdir_cycle st w []) as T. cbv zeta in T.
+          destruct T as (_ & _ & _ & _ & _ & _ & _ & F). rewrite F. reflexivity.
+    - unfold run_compress. rewrite K. cbn [negb].
+      destruct (body_write b flt) as [[x|] o]; cbn; [apply flook_fwrite_other; congruence|reflexivity].
+  Qed.
+
+  Lemma roundtrip : forall st name fmtarg target b,
+    let fmt := fmt_of_name name in
+    known fmt = true -> writer_of fmt <> WNone ->
+    (fmtarg = None \/ fmtarg = Some fmt) -> target <> Some name ->
+    let r1 := run_compress known enc encp st name fmtarg b CNone in
+    let r2 := run_decompress known dec (c_st r1) name target DNone in
+    c_out r1 = Done /\ dec fmt (member_d name) (match flook name (files (c_st r1)) with Some x => x | None => [] end) = DOk b
+    /\ d_out r2 = Done /\ d_read r2 = Some b
+    /\ tdirs (d_st r2) = tdirs st /\ tfiles (d_st r2) = tfiles st
+    /\ flook name (files (d_st r2)) = flook name (files (c_st r1))
+    /\ (forall t, target = Some t -> flook t (files (d_st r2)) = None).
+  Proof.
+    intros st name fmtarg target b fmt K W FA NT r1 r2.
+    assert (EF : eff_fmt name fmtarg = fmt) by (destruct FA as [->| ->]; reflexivity).
+    assert (K' : known (eff_fmt name fmtarg) = true) by (rewrite EF; exact K).
+    assert (W' : writer_of (eff_fmt name fmtarg) <> WNone) by (rewrite EF; exact W).
+    destruct (compress_stores known enc encp st name fmtarg b K' W') as (O1 & _ & F1).
+    fold r1 in O1, F1. rewrite EF in F1.
+    assert (M : member_c name fmt = member_d name) by (apply member_agree; apply writer_nonempty; exact W).
+    rewrite M in F1.
+    assert (L : flook name (files (c_st r1)) = Some (enc fmt (member_d name) b))
+      by (rewrite F1; apply flook_fwrite_same).
+    destruct (decompress_reads known dec (c_st r1) name target _ b K NT L (codec_ok _ _ _)) as (O2 & R2 & _).
+    destruct (compress_no_debris known enc encp st name fmtarg b CNone) as [D1 D2].
+    destruct (decompress_no_debris known dec (c_st r1) name target DNone) as [D3 D4].
+    fold r1 in D1, D2, D3, D4. fold r2 in D3, D4, O2, R2.
+    split; [exact O1|]. split; [rewrite L; apply codec_ok|]. split; [exact O2|]. split; [exact R2|].
+    split; [congruence|]. split; [congruence|].
+    split; [apply decompress_others_untouched; congruence|].
+    intros t ->. apply decompress_copy_gone; [exact K|discriminate].
+  Qed.
+End RoundTrip.
+
+(* ------------------------------------------------------------------ the toy codec meets the hypothesis *)
+Lemma firstn_skipn_app : forall (s r : list Z),
+  firstn (List.length s) (s ++ r) = s /\ skipn (List.length s) (s ++ r) = r.
+Proof. induction s as [|x s IH]; intros r; cbn; [split; reflexivity|]. destruct (IH r) as [-> ->]. split; reflexivity. Qed.
+
+Lemma take_put : forall s rest, take_str (put_str s rest) = Some (s, rest).
+Proof.
+  intros s rest. unfold take_str, put_str. rewrite Nat2Z.id.
+  replace (List.length s <=? List.length (s ++ rest))%nat with true
+    by (symmetry; apply Nat.leb_le; rewrite app_length; lia).
+  replace (0 <=? Z.of_nat (List.length s)) with true by (symmetry; apply Z.leb_le; lia).
+  cbn [andb]. destruct (firstn_skipn_app s rest) as [-> ->]. reflexivity.
+Qed.
+
+Lemma zs_eqb_refl : forall a, zs_eqb a a = true.
+Proof. induction a as [|x a IH]; cbn; [reflexivity|]. rewrite Z.eqb_refl, IH. reflexivity. Qed.
+
+Lemma toy_codec_ok : forall f m b, toy_dec f m (toy_enc f m b) = DOk b.
+Proof.
+  intros f m b. unfold toy_dec, toy_enc.
+  change (-3 =? -2) with false. change (-3 =? -3) with true. cbv iota.
+  rewrite take_put, take_put. rewrite !zs_eqb_refl. rewrite orb_true_r. reflexivity.
+Qed.
+
+(* ------------------------------------------------------------------ the format table *)
+Lemma is_adv_writer : forall f, is_adv f = true -> writer_of f <> WNone.
+Proof.
+  intros f H. unfold is_adv, knownb, advertised in H. cbn [existsb] in H.
+  repeat (apply orb_true_iff in H; destruct H as [H|H]); try discriminate;
+    apply str_eqb_eq in H; subst f; vm_compute; discriminate.
+Qed.
